@@ -132,8 +132,8 @@ PROPS = {
     "C12": dict(
         units=["oplog", "rotation"],
         kani=[K_CODEC],
-        undecided=["rotation: Oplog::get_log_file_append_mode / remove_old_db_files (rename, directory listing, creation times) - 'rotation keeps the newest records and never drops a "
-                   "record within the configured size' is NOT decided by contract (Oplog::try_write_op_log IS verified to leave the accepted record as the last record of the live "
+        undecided=["rotation: Oplog::get_log_file_append_mode (the rename) and the directory listing itself (fs::read_dir, creation times) are trusted models; that the rename keeps every "
+                   "record of the rolled file is NOT decided by contract (remove_old_db_files IS verified over a directory token - unit rotation: the nine newest files are kept, exactly; Oplog::try_write_op_log IS verified to leave the accepted record as the last record of the live "
                    "stream also when the write rolled the file over; the bounded family logroll writes through two rotations on the real disk code, and - through the cfg(nundb_verif) hook - runs the declutter step after 9 / 12 / 15 "
                    "roll-overs: at most nine rotated files remain and the newest 150 records are all still answered)",
                    "that the directory listing really is sorted by creation time and that the files are in time order (get_op_log_entries_by_creation_date is a trusted external; "
